@@ -345,6 +345,33 @@ SS_NEUTRAL = [f for f in SS_RICH if f not in ("striptags", "e", "escape", "force
 BLOCK_RICH = ["capitalize", "lower", "upper", "title", "trim", "string", "e", "escape", "forceescape", "urlencode", "center", "indent",
               "truncate", "wordwrap", "replace", "format", "reverse", "first", "last", "indent", "replace", "truncate"]
 BLOCK_SPEC = {"wordwrap": _spec("width:w? break_long_words:b?")}
+N1_FILTERS = ["default", "d", "join", "wordwrap", "striptags"]
+N1_SPEC = {"default": _spec("default_value:s boolean:b?"), "d": _spec("default_value:s boolean:b?"), "join": _spec("d:s"),
+           "wordwrap": _spec("width:w break_long_words:b wrapstring:s")}
+
+
+def n1_class(templates):
+    """True when a filter section / filtered set block uses a filter whose plain result is emitted as markup (finding N1 =
+    F48): default / d with a non-constant-safe argument, join with a separator, wordwrap with a wrapstring, striptags,
+    batch, slice (pprint's repr quotes are excluded for the same reason)."""
+    for n in walk(templates):
+        if n[0] in ("filter", "setblock") and len(n) >= 3:
+            chain = n[1] if n[0] == "filter" else n[2]
+            for name, args, kwargs in chain:
+                if name in ("striptags", "batch", "slice", "pprint"):
+                    return True
+                if name in ("default", "d") and (args or kwargs) and (args or [kwargs[0][1]])[0] != ["s", "-"]:
+                    return True
+                if name == "join" and (args or kwargs):
+                    return True
+                if name == "wordwrap" and (len(args) >= 3 or any(kw == "wrapstring" for kw, _ in kwargs)):
+                    return True
+    return False
+
+
+def has_blocks(templates):
+    return any(n[0] == "block" and len(n) == 4 and isinstance(n[1], str) for n in walk(templates))
+
 # content-preserving filters allowed on hi operands (both modes)
 SS_HI = ["string", "trim", "default", "d"]
 STR_METHODS = ["upper", "lower", "title", "capitalize", "swapcase", "casefold", "strip", "lstrip", "rstrip", "replace", "format",
@@ -843,6 +870,11 @@ class _Gen:
             if neutral_only:
                 name = self.pick(NEUTRAL_BLOCK_FILTERS + ("default",))
                 out.append([name, [["s", "-"], ["b", True]] if name == "default" else [], []])
+            elif self.chance(1, 12):
+                # the input class of known finding N1 (F48): generated rarely so that the check can count what it excludes
+                name = self.pick(N1_FILTERS)
+                args, kwargs = self.filter_args(lex, name, 1, spec=N1_SPEC.get(name), const=const_args)
+                out.append([name, args, kwargs])
             else:
                 name = self.pick(BLOCK_RICH)
                 args, kwargs = self.filter_args(lex, name, 1, spec=BLOCK_SPEC.get(name), const=const_args)
